@@ -1,4 +1,164 @@
+(* C09 — daemon/timer life-cycle.  Only statements here; proofs in Proofs/Daemons.v, model in Model/Daemons.v.
+   ∀ = unbounded: every label history of the per-object LTS (events with any view/time/oracle, task ends, killer steps),
+   every handler configuration (backoff/timeout/polling in Z or None), every age of the stop flag, every oracle. *)
 From Coq Require Import ZArith List Bool.
 From KV Require Import Model.Daemons Proofs.Daemons.
-Theorem C09_placeholder : True. Proof. exact placeholder_true. Qed.
-Print Assumptions C09_placeholder.
+Import ListNotations.
+Open Scope Z_scope.
+
+(* at most one runner task per (object, handler id) at any time, in every reachable state *)
+Theorem C09_single_instance : forall spoll tr s id ser1 ser2,
+  run spoll init tr = Some s -> In (id, ser1) (o_live s) -> In (id, ser2) (o_live s) -> ser1 = ser2.
+Proof. exact single_instance. Qed.
+Print Assumptions C09_single_instance.
+
+(* started when the object appears / starts matching (not marked for deletion, operator not paused, never exited on its own) *)
+Theorem C09_spawn_on_match : forall spoll s v now orc s' id h,
+  step spoll s (LProc false v now orc) = Some s' -> v_deleting v = false -> v_paused v = false ->
+  In (id, h) (v_matching v) -> ~ In id (o_forever s) -> In id (keys (o_running s')).
+Proof. exact spawn_on_match. Qed.
+Print Assumptions C09_spawn_on_match.
+
+(* asked to stop when marked for deletion (any event type, also a DELETED event that still shows the deletionTimestamp) *)
+Theorem C09_stop_on_deletion_mark : forall spoll s del v now orc s' id i,
+  step spoll s (LProc del v now orc) = Some s' -> v_deleting v = true ->
+  lookup id (o_running s') = Some i -> is_set (i_sp i) (Some RDeleted) = true.
+Proof. exact stop_on_deletion_mark. Qed.
+Print Assumptions C09_stop_on_deletion_mark.
+
+Theorem C09_stop_on_mismatch : forall spoll s v now orc s' id i,
+  step spoll s (LProc false v now orc) = Some s' -> v_deleting v = false -> v_paused v = false ->
+  ~ In id (keys (v_matching v)) -> lookup id (o_running s') = Some i -> is_set (i_sp i) (Some RMismatch) = true.
+Proof. exact stop_on_mismatch. Qed.
+Print Assumptions C09_stop_on_mismatch.
+
+Theorem C09_stop_on_pause : forall spoll s v now orc s' id i,
+  step spoll s (LProc false v now orc) = Some s' -> v_deleting v = false -> v_paused v = true ->
+  lookup id (o_running s') = Some i -> is_set (i_sp i) (Some RPausing) = true.
+Proof. exact stop_on_pause. Qed.
+Print Assumptions C09_stop_on_pause.
+
+(* staged termination (stop_daemons), for every configuration, age and oracle:
+   flag first; cancellation only at backoff <= age < backoff+timeout with a timeout configured; abandonment only at
+   age >= backoff+timeout with a timeout configured; otherwise a positive delay up to the next boundary (or polling) *)
+Theorem C09_staged_flag_first : forall h spoll now why sp done0 ex,
+  is_set (r_sp (stage h spoll now why sp done0 ex)) (Some why) = true.
+Proof. exact stage_sets_reason. Qed.
+Print Assumptions C09_staged_flag_first.
+
+Theorem C09_staged_cancel : forall h spoll now why sp done0 ex,
+  (r_cancel (stage h spoll now why sp done0 ex) = true \/ In ACancel (r_acts (stage h spoll now why sp done0 ex))) ->
+  exists t, eff_timeout h = Some t /\ age_of now sp < t + oz (eff_backoff h) /\ (forall b, eff_backoff h = Some b -> b <= age_of now sp).
+Proof. exact stage_cancel_only_after_backoff. Qed.
+Print Assumptions C09_staged_cancel.
+
+Theorem C09_staged_abandon : forall h spoll now why sp done0 ex,
+  why <> RAbandoned -> In (ASet RAbandoned) (r_acts (stage h spoll now why sp done0 ex)) ->
+  exists t, eff_timeout h = Some t /\ t + oz (eff_backoff h) <= age_of now sp /\ (forall b, eff_backoff h = Some b -> b <= age_of now sp).
+Proof. exact stage_abandon_only_after_timeout. Qed.
+Print Assumptions C09_staged_abandon.
+
+Theorem C09_staged_delays : forall h spoll now why sp done0 ex,
+  r_done (stage h spoll now why sp done0 ex) = false ->
+  match stage_of (eff_backoff h) (eff_timeout h) (age_of now sp) with
+  | SSignal => r_delays (stage h spoll now why sp done0 ex) = [oz (eff_backoff h) - age_of now sp] /\ 0 < oz (eff_backoff h) - age_of now sp
+  | SCancel => r_delays (stage h spoll now why sp done0 ex) = [oz (eff_timeout h) + oz (eff_backoff h) - age_of now sp]
+               /\ 0 < oz (eff_timeout h) + oz (eff_backoff h) - age_of now sp
+  | SAbandon => r_delays (stage h spoll now why sp done0 ex) = [] /\ is_set (r_sp (stage h spoll now why sp done0 ex)) (Some RAbandoned) = true
+  | SPoll => r_delays (stage h spoll now why sp done0 ex) = [eff_polling h spoll]
+  end.
+Proof. exact stage_delays_until_done. Qed.
+Print Assumptions C09_staged_delays.
+
+(* following the returned delay leaves the signalling stage, then reaches abandonment, which is final: <= 3 cycles *)
+Theorem C09_staged_progress : forall bo tmo age,
+  (stage_of bo tmo age = SSignal -> stage_of bo tmo (age + (oz bo - age)) <> SSignal) /\
+  (stage_of bo tmo age = SCancel -> stage_of bo tmo (age + (oz tmo + oz bo - age)) = SAbandon) /\
+  (forall d, stage_of bo tmo age = SAbandon -> 0 <= d -> stage_of bo tmo (age + d) = SAbandon).
+Proof. intros bo tmo age; split; [exact (stage_next_after_signal bo tmo age) | split; [exact (stage_next_after_cancel bo tmo age) | exact (fun d => stage_abandon_is_final bo tmo age d)]]. Qed.
+Print Assumptions C09_staged_progress.
+
+(* the linear procedure of the daemon killer (pause / exit): flag first, cancel exactly after the backoff and only with a
+   timeout, never leaves a running daemon un-abandoned, and ALWAYS returns within backoff + timeout, for every reaction *)
+Theorem C09_linear_staged : forall h why sp t0 done0 x,
+  (exists tl, l_trace (linear_stop h why sp t0 done0 x) = (t0, ASet why) :: tl) /\
+  is_set (l_sp (linear_stop h why sp t0 done0 x)) (Some why) = true /\
+  (forall tc, l_cancelled (linear_stop h why sp t0 done0 x) = Some tc ->
+     exists t, eff_timeout h = Some t /\ In (tc, ACancel) (l_trace (linear_stop h why sp t0 done0 x)) /\ t0 <= tc /\
+               (forall b, eff_backoff h = Some b -> tc = t0 + Z.max 0 b)) /\
+  (l_done (linear_stop h why sp t0 done0 x) = false -> is_set (l_sp (linear_stop h why sp t0 done0 x)) (Some RAbandoned) = true).
+Proof.
+  intros h why sp t0 done0 x.
+  exact (conj (linear_flag_first h why sp t0 done0 x) (conj (linear_sets_reason h why sp t0 done0 x)
+        (conj (linear_cancel_after_backoff h why sp t0 done0 x) (linear_done_or_abandoned h why sp t0 done0 x)))).
+Qed.
+Print Assumptions C09_linear_staged.
+
+Theorem C09_linear_stop_bounded : forall h why sp t0 done0 x,
+  t0 <= l_end (linear_stop h why sp t0 done0 x) <= t0 + Z.max 0 (oz (eff_backoff h)) + Z.max 0 (oz (eff_timeout h)).
+Proof. exact linear_bounded. Qed.
+Print Assumptions C09_linear_stop_bounded.
+
+(* an instance that ends while its flag never got a reason is remembered, and is never started again in any continuation *)
+Theorem C09_own_exit_is_remembered : forall spoll s id ser s' i,
+  lookup id (o_running s) = Some i -> sp_reason (i_sp i) = None ->
+  step spoll s (LEnd id ser) = Some s' -> In id (o_forever s') /\ ~ In id (keys (o_running s')).
+Proof. exact own_exit_is_remembered. Qed.
+Print Assumptions C09_own_exit_is_remembered.
+
+Theorem C09_no_restart_after_own_exit : forall spoll tr s s' id,
+  run spoll s tr = Some s' -> In id (o_forever s) -> ~ In id (keys (o_running s)) ->
+  In id (o_forever s') /\ ~ In id (keys (o_running s')).
+Proof. exact no_restart_after_own_exit. Qed.
+Print Assumptions C09_no_restart_after_own_exit.
+
+(* a stopping instance is not respawned before it has fully ended; the runner's `del daemons[id]` always finds itself *)
+Theorem C09_no_respawn_before_end : forall spoll tr s l s' id ser ser',
+  run spoll init tr = Some s -> step spoll s l = Some s' ->
+  In (id, ser) (o_live s) -> In (id, ser') (o_live s') -> ser' <> ser -> ~ In (id, ser) (o_live s').
+Proof. exact no_respawn_before_end. Qed.
+Print Assumptions C09_no_respawn_before_end.
+
+Theorem C09_runner_never_keyerror : forall spoll tr s id ser,
+  run spoll init tr = Some s -> In (id, ser) (o_live s) ->
+  exists i, lookup id (o_running s) = Some i /\ i_ser i = ser /\ finish id s <> None.
+Proof. exact runner_finds_itself. Qed.
+Print Assumptions C09_runner_never_keyerror.
+
+(* "stopping never stalls": FALSE of the faithful model (finding F1) — an idle-only timer whose stopper is set spins for ever *)
+Theorem C09_stop_terminates_refuted : exists c p, forall fuel, timer_tail false c false fuel p = None.
+Proof. exact timer_tail_refuted. Qed.
+Print Assumptions C09_stop_terminates_refuted.
+
+(* ... true for every timer that has an interval, or no idle, or saw an idle reset after its last start: <= 1 further sleep() *)
+Theorem C09_stop_terminates_partial : forall c ra p fuel,
+  reachable_point c p = true -> (t_interval c <> None \/ t_idle c = None \/ ra = true) -> (4 <= fuel)%nat ->
+  exists n, timer_tail false c ra fuel p = Some n /\ (n <= 1)%nat.
+Proof. exact timer_tail_partial. Qed.
+Print Assumptions C09_stop_terminates_partial.
+
+(* ... and for EVERY timer once the idle-only loop also tests the stopper (the proposed one-line repair) *)
+Theorem C09_stop_terminates_if_guarded : forall c ra p fuel, (4 <= fuel)%nat ->
+  exists n, timer_tail true c ra fuel p = Some n /\ (n <= 1)%nat.
+Proof. exact timer_tail_guarded. Qed.
+Print Assumptions C09_stop_terminates_if_guarded.
+
+(* "asked to stop when the object disappears": FALSE of the faithful model (finding F7) — DELETED without deletionTimestamp *)
+Theorem C09_stop_on_disappear_refuted :
+  exists tr s, run 1000 init (tr ++ [LProc true v_live 0 []]) = Some s /\ orphan s 0 0 /\ In (0%nat, 0%nat) (o_live s).
+Proof. exact stop_on_disappear_refuted. Qed.
+Print Assumptions C09_stop_on_disappear_refuted.
+
+(* ... and such an orphan is never asked to stop by anything the operator does later (events, pause, exit) *)
+Theorem C09_orphan_never_stopped : forall spoll tr s s' id ser, orphan s id ser -> run spoll s tr = Some s' ->
+  forall i, lookup id (o_running s') = Some i -> i_ser i = ser /\ sp_reason (i_sp i) = None.
+Proof. exact orphan_never_stopped. Qed.
+Print Assumptions C09_orphan_never_stopped.
+
+(* ... true whenever the DELETED event still shows the deletionTimestamp (graceful deletion, or forced finalizer removal
+   AFTER the deletion was requested) *)
+Theorem C09_stop_on_disappear_partial : forall spoll s v now orc s' id i,
+  step spoll s (LProc true v now orc) = Some s' -> v_deleting v = true ->
+  lookup id (o_running s') = Some i -> is_set (i_sp i) (Some RDeleted) = true.
+Proof. exact (fun spoll s => stop_on_deletion_mark spoll s true). Qed.
+Print Assumptions C09_stop_on_disappear_partial.
